@@ -867,7 +867,9 @@ class Interp:
             result = recv
         else:
             result = self.world.fresh_value(self, c.returns, 'ret_' + c.qual.split('.')[-1])
-        scope.set('result', result)
+        scope.set('returned', result)
+        if 'result' not in c.params:
+            scope.set('result', result)
         # exceptional outcomes
         if c.signals:
             for exc, condition in c.signals.items():
@@ -950,6 +952,8 @@ class Interp:
         if isinstance(recv, SV) and recv.typ.kind == 'Opt':
             self.require(z3.Not(opt_is_none(recv)), 'AttributeError', 'None.' + name)
             return self.getattr(opt_get(recv), name)
+        if isinstance(recv, SV) and recv.typ.kind == 'Enum' and name == 'value' and recv.typ.args[0] in getattr(self.world, 'enum_values', {}):
+            return SV(INT, self.world.enum_values[recv.typ.args[0]](recv.t))
         if isinstance(recv, SV) and recv.typ.kind == 'Enum' and name == '__class__':
             return self.world.globals[recv.typ.args[0]]
         if recv is None:
